@@ -1,4 +1,5 @@
 import TunnelModel.LFrame.Server
+import Proofs.Lemmas.Registry
 /-!
   C10 — graceful shutdown refuses new RPCs and lets in-flight ones finish
   (tunnel-level part: the `closing` flag in `createStream`).  The lifecycle
@@ -72,5 +73,39 @@ theorem C10_flag_only_read_by_new_stream (cfg : SCfg) (s : Srv α) (x : SStim α
 -- non-vacuity: a fresh server in shutdown refuses stream 0
 example : ((({ closing := true } : Srv Nat).onFrame {} 0 (.newStream [] [] 1 65536)).2.frames).length = 1 := by
   decide
+
+/-! ### the reverse-tunnel server's state machine (reverse_server.go: Serve / GracefulStop / Stop)
+
+The lifecycle world compares `state` and the number of registered instances of
+the real `ReverseTunnelServer` with this model after every API event. -/
+
+open TunnelModel.Lifecycle Proofs.Registry in
+/-- **Shutdown only moves forward** (active → closing → closed), over every
+    sequence of Serve / Serve-returned / Stop / GracefulStop events. -/
+theorem C10_shutdown_monotone (ops : List SOp) (s : RServer) :
+    s.state.rank ≤ (ops.foldl stepSrv s).state.rank :=
+  C10_rank_mono ops s
+
+open TunnelModel.Lifecycle Proofs.Registry in
+/-- **Once shutdown was initiated every later `Serve` is refused**, whatever
+    happens in between, and changes nothing. -/
+theorem C10_serve_refused_after_shutdown (ops : List SOp) (s : RServer) (h : s.state ≠ .active)
+    (t : Nat) : ((ops.foldl stepSrv s).serve t).2 = false
+      ∧ ((ops.foldl stepSrv s).serve t).1 = ops.foldl stepSrv s :=
+  C10_serve_refused_forever ops s h t
+
+open TunnelModel.Lifecycle Proofs.Registry in
+/-- **`Stop` after `GracefulStop` still stops**: the server ends up closed (its
+    tunnels are then torn down), exactly as a `Stop` alone; a `GracefulStop`
+    after `Stop` changes nothing. -/
+theorem C10_stop_after_gracefulStop (s : RServer) :
+    s.gracefulStop.stop = s.stop ∧ s.gracefulStop.stop.state = .closed ∧ s.stop.gracefulStop = s.stop :=
+  ⟨stop_after_gracefulStop s, by rw [stop_after_gracefulStop]; rfl, gracefulStop_after_stop s⟩
+
+open TunnelModel.Lifecycle Proofs.Registry in
+/-- both stops make `isClosing` true, and it stays true -/
+theorem C10_isClosing_after_stop (ops : List SOp) (s : RServer) :
+    (ops.foldl stepSrv s.gracefulStop).isClosing = true ∧ (ops.foldl stepSrv s.stop).isClosing = true :=
+  ⟨C10_isClosing_sticky ops _ (isClosing_gracefulStop s), C10_isClosing_sticky ops _ (isClosing_stop s)⟩
 
 end Proofs.C10
